@@ -208,10 +208,10 @@ def build(seed, tier):
     decos = [('', '', ''), ('user:pw@', '', '/a/b?x=1'), ('', ':8080', ''),
              ('u@', ':80', '/latest/meta-data/#frag'),
              ('a%40b:c@', ':443', '/')]
-    per = 2 if tier == 'quick' else len(decos)
+    per = 4 if tier == 'quick' else len(decos)
     for host, addrs, form, cls in items:
         for ci, conf in enumerate(CONFIGS):
-            if tier == 'quick' and ci > 1 and rng.random() < 0.6:
+            if tier == 'quick' and ci > 1 and rng.random() < 0.2:
                 continue
             ds = rng.sample(decos, per) if per < len(decos) else decos
             for (ui, port, path) in ds:
